@@ -74,6 +74,10 @@ def run(ctx):
         if cname == "SMCSamples":
             kw.update(beta=0.25, log_evidence=-3.5, log_evidence_error=0.5)
             scal = {"beta": 0.25, "log_evidence": -3.5, "log_evidence_error": 0.5}
+        if cname == "Samples" and not all(has) and ctx.rng.random() < 0.7:
+            # a weightless set that carries an evidence: the shape of every SMC result (to_standard_samples)
+            kw.update(log_evidence=-7.5, log_evidence_error=0.25)
+            scal = {"log_evidence": -7.5, "log_evidence_error": 0.25}
         s = classes[cname](x, xp=xp, dtype=dt, parameters=[f"p{k}" for k in range(d)], **kw)
         if cname == "Samples" and all(has):
             scal = {"log_evidence": nsutil.to_float(s.log_evidence), "log_evidence_error": nsutil.to_float(s.log_evidence_error)}
